@@ -42,7 +42,7 @@ Leaks(s, v, r) ==
                  : ob \in Observed(r)}
       : \E m \in ms : Contains(x.text, m)}
 
-(* F-C19-1 (open): the cause of a "oneOf" error is built with fmt.Errorf("... %w", errors of the alternatives), which renders  *)
+(* F-C19-2 (open): the cause of a "oneOf" error is built with fmt.Errorf("... %w", errors of the alternatives), which renders  *)
 (* the text of the alternatives' errors AT VALIDATION TIME; if details were enabled then, the frozen text keeps the value dump *)
 (* however the switch stands when the oneOf error is rendered.  Only the history lists, only rendered messages (never a     *)
 (* Reason), only for a schema with a oneOf somewhere -- or a format: the cause of a format error whose validator returned a     *)
@@ -70,7 +70,7 @@ ReqLineOK(line) ==
               \cup (IF \E i \in DOMAIN line.texts : Contains(line.texts[i], line.marker) THEN {"message_leaks_value"} ELSE {})
    IN bad = {} \/ CSVWrite("%1$s", <<ToJson([case |-> line.case, kind |-> "req", c |-> line.c, failed |-> bad,
                                               texts |-> line.texts,
-                                              \* F-C19-1 seen through the request / response error: rendered late, failing keyword with a frozen cause
+                                              \* F-C19-2 seen through the request / response error: rendered late, failing keyword with a frozen cause
                                               class |-> (IF bad = {"message_leaks_value"} /\ line.c.hide = "nodetails_late" /\ line.c.kw \in {"oneOf", "format"}
                                                          THEN "cause_text_frozen_at_validation" ELSE "none")])>>, "violations.ndjson")
 
